@@ -59,6 +59,11 @@ CLAIMS = {
    design_ref="DESIGN.md section 5 C19, section 8",
    note=COMMON_NOTE + "Known finding pop3:msgno-wraps-2^64 is listed in known_findings.json. qmail-popup (pre-authentication verbs, credentials passed verbatim) is not yet modelled; equal mtimes and STAT's count are outside the property.",
    technique="Coq proof (line-level encoding lemmas reusing C05's decoder theorem; case analysis of the command dispatcher; induction over the session) + extracted-model differential tie to the real qmail-pop3d"),
+ "C13": dict(category="proof",
+   text="Theorems for every extension, file population, instruction text and outcome oracle: the sanitised extension contains no dot and every candidate is .qmail+dash+prefix+(''|default); the file used is the first regular candidate in search order with all earlier ones absent, a temporary error or a file writable by others defers; a writable or sticky home never delivers; with the x bit or +list no file/program instruction is executed; forwarding is the last step, once, only if nothing ended the run earlier; program exit codes map 99 -> stop with success, 100/64/65/70/76/77/78/112 -> permanent, other/crash -> temporary; a blank first line is refused; a message carrying its own Delivered-To line is bounced before any delivery; the Delivered-To, Return-Path and From_ lines contain exactly one LF, at the end, for all address bytes. Tied on every run to the real qmail-local: -n plans over generated homes (candidate/decoy files, modes, directories, home modes) and real runs (programs leaving an execution trace with every relevant exit code, maildir/mbox lines, forwards through a stand-in qmail-queue with exit 0/31/53, looping messages, hostile addresses).",
+   design_ref="DESIGN.md section 5 C13, section 8",
+   note=COMMON_NOTE + "Temporary stat/open errors cannot be produced as root and are not exercised; -owner sender rewriting and the environment handed to programs are not modelled.",
+   technique="Coq proof (structural induction over candidates and instruction lines) + extracted-model differential tie to the real qmail-local in generated home directories"),
 }
 
 REASON_PENDING = "not yet claimed: model/correspondence for this property is still being built (DESIGN.md section 7); no check is registered for it"
